@@ -47,6 +47,16 @@ GSETS = [
                           "operator expected\n",
                           "n +\n:::\nOPERAND\n"]},
          alpha="n+m(", extra_probes=["n+n+", "n+(n", "n!+", "m m"]),
+    # a LAYOUT rule: the parser builds a second table (for the layout
+    # sub-parser) that is never cached
+    dict(files={"g.pg": ["import 'b.pg';\nS: b.A S | b.A;\n"
+                         "LAYOUT: LI | LAYOUT LI | EMPTY;\nLI: WS | CM;\n"
+                         "terminals\nWS: /\\s+/;\nCM: /#[ab]*#/;\n",
+                         "import 'b.pg';\nS: S b.A | b.A | S ';';\n"
+                         "LAYOUT: LI | LAYOUT LI | EMPTY;\nLI: WS | CM;\n"
+                         "terminals\nWS: /\\s+/;\nCM: /#[ab]*#/;\n"],
+                "b.pg": ["A: 'a' | 'b';\n", "A: 'a';\n"]},
+         alpha="ab #", extra_probes=["a #b# a", " a  b", "a#", "a ## b #"]),
 ]
 OPTS = {
     "LR": ("lr", {}),
@@ -247,9 +257,9 @@ def events(tier):
 
 def plan(tier, seed):
     if tier == "quick":
-        return dict(depth=3, gsets=[0, 1, 2, 3, 4], byte_stride=8, op_stride=4,
+        return dict(depth=3, gsets=[0, 1, 2, 3, 4, 5], byte_stride=8, op_stride=4,
                     rt_space="k3", rt_win=None)
-    return dict(depth=4, gsets=[0, 1, 2, 3, 4], byte_stride=1, op_stride=1,
+    return dict(depth=4, gsets=[0, 1, 2, 3, 4, 5], byte_stride=1, op_stride=1,
                 rt_space="k4", rt_win=None)
 
 
